@@ -4,15 +4,12 @@ From DepsDev Require Import Lib.Base Gen.AttrTables Gen.ApiClientTables Resolve.
 
 (* ------------------------------------------------------------------ the regenerated constants *)
 
-(* The literals the model copies from api.go, checked against the working tree on every run. *)
-Example api_literals_ok :
-  api_literals_flattenNPMDeps = [s_star; [c_at]; s_bundle; s_npm_colon; s_peer] /\
-  api_literals_npmRequirements = [s_slash_node_modules_slash; s_node_modules_slash] /\
-  api_literals_mangledName = [[37;115;62;37;115;62;37;115]; [c_gt]] /\
-  api_literals_isNPMBundle = [[c_gt]] /\
-  api_literals_makeVersion = [[]; s_latest] /\
+(* The VersionType numbers of the model are those of the working tree (regenerated each run);
+   the attribute keys and the api System number are looked up in the regenerated tables by the
+   projection (Extract/CasesApi.v). *)
+Example api_constants_ok :
   api_vt_concrete = Z.of_N Concrete /\ api_vt_requirement = Z.of_N Requirement.
-Proof. vm_compute. repeat split. Qed.
+Proof. vm_compute. split; reflexivity. Qed.
 
 (* ------------------------------------------------------------------ byte strings *)
 
